@@ -508,7 +508,8 @@ pub fn run_property(p: &dyn Property, tier: Tier, seed: u64) -> RunOutcome {
         "wall_s": wall,
         "violations": violations,
     });
-    let ev_dir = root.join("evidence");
+    // sensitivity runs (mutants, seeded changes) must not overwrite the evidence of the real tree
+    let ev_dir = std::env::var("VERIF_EVIDENCE_DIR").map(PathBuf::from).unwrap_or_else(|_| root.join("evidence"));
     let _ = std::fs::create_dir_all(&ev_dir);
     let ev_path = ev_dir.join(format!("{}.json", p.id()));
     if let Err(e) = std::fs::write(&ev_path, serde_json::to_string_pretty(&evidence).unwrap() + "\n") {
